@@ -768,15 +768,15 @@ Proof.
       destruct f; cbn; discriminate.
 Qed.
 
-Lemma level_sound_flat env n items tail ts ix s s' v a :
+Lemma level_sound_flat env n items anc tail ts ix s s' v a f :
   flat_ok items tail -> Sim n s (live_from ix ts) -> length ts <= n ->
-  scan items [] tail ts = ScDone a ->
+  scan items anc tail ts = ScDone a ->
   eval env (compile (Level items tail)) s = (ROk v, s') -> first_item_ix s' = None ->
-  denote_level (S (length ts)) (Level items tail) [] ts = Accept v.
+  denote_level (S f) (Level items tail) anc ts = Accept v.
 Proof.
   intros Hok S0 Hlen Sc Ee Hfi. pose proof Hok as (Hdis & Hnames & Hl2).
   destruct (compile_flat items tail Hok) as [Ec Hflat].
-  destruct (scan_wf items [] tail _ ts (le_n _) ix a Sc) as (W & Ho & Hw & Hu & Hnf).
+  destruct (scan_wf items anc tail _ ts (le_n _) ix a Sc) as (W & Ho & Hw & Hu & Hnf).
   set (t0 := tag_from ix ts (at_roles a)) in *.
   assert (Hlt0 : length t0 < S (S n)).
   { rewrite <- (untag_length t0), Hu. pose proof (live_from_le ts ix) as L. lia. }
@@ -840,7 +840,7 @@ Proof.
   destruct (eval env (compile (Level items tail)) s0) as [r s1] eqn:Ee.
   apply run_sub_body_ok in Hr. destruct Hr as [-> Hfi].
   rewrite <- Hlen.
-  eapply (level_sound_flat env _ items tail (mark_tokens t) 0 s0 s1 v a Hok S0); [lia|exact Sc|exact Ee|exact Hfi].
+  eapply (level_sound_flat env _ items [] tail (mark_tokens t) 0 s0 s1 v a _ Hok S0); [lia|exact Sc|exact Ee|exact Hfi].
 Qed.
 
 (* equivalently: what the grammar rejects on an attributed vector is never returned as Ok *)
@@ -1185,9 +1185,12 @@ Qed.
 
 Section ScanRej.
 Variable items : list citem.
+Variable anc : list citem.
 Variable tail : ctail.
 Hypothesis Hdis : disjoint_names items.
-Hypothesis Ht : forall cs, tail <> TCmds cs.
+
+(* the fields a stuck token has to survive besides the named ones: the positionals of a flat level *)
+Definition ptail : ctail := match tail with TPos ps => TPos ps | _ => TNone end.
 
 Definition prev_ok (ix : nat) (pre : lv) : Prop := forall j b, ix = S j -> In (j, b) pre -> argsafe items b.
 
@@ -1229,11 +1232,11 @@ Lemma suf_above ix rest p : In p (live_from (S ix) rest) -> ix < fst p.
 Proof. intros H. apply live_from_ge in H. lia. Qed.
 
 Lemma scan_reject_stuck n : forall ts, length ts <= n -> forall ix pre,
-  scan items [] tail ts = ScReject ->
+  scan items anc tail ts = ScReject ->
   (forall p, In p pre -> fst p < ix) -> prev_ok ix pre ->
-  exists x, In x (pre ++ live_from ix ts) /\ stuck items tail x (pre ++ live_from ix ts).
+  exists x, In x (pre ++ live_from ix ts) /\ stuck items ptail x (pre ++ live_from ix ts).
 Proof.
-  induction n as [|n IH]; intros ts Hn ix pre H Hp Pk.
+  unfold ptail. induction n as [|n IH]; intros ts Hn ix pre H Hp Pk.
   - destruct ts; [cbn in H; discriminate|cbn in Hn; lia].
   - destruct ts as [|[x m] rest]; [cbn in H; discriminate|].
     cbn [scan] in H. cbn [length] in Hn.
@@ -1253,13 +1256,17 @@ Proof.
             if is_argument it then
               match rest with
               | (ArgWord w, false) :: rest' | (Word w, false) :: rest' =>
-                att_cons [RKey k; RVal k] [(k, Some w)] [] (scan items [] tail rest')
-              | _ => if unspec_later items [] tail false ((x, false) :: rest) then ScUnspec else ScReject
+                att_cons [RKey k; RVal k] [(k, Some w)] [] (scan items anc tail rest')
+              | _ => if unspec_later items anc tail false ((x, false) :: rest) then ScUnspec else ScReject
               end
-            else att_cons [RKey k] [(k, None)] [] (scan items [] tail rest)
-          | None => if unspec_later items [] tail false ((x, false) :: rest) then ScUnspec else ScReject
+            else att_cons [RKey k] [(k, None)] [] (scan items anc tail rest)
+          | None =>
+            match find_owner anc x 0 with
+            | Some _ => ScUnspec
+            | None => if unspec_later items anc tail false ((x, false) :: rest) then ScUnspec else ScReject
+            end
           end) = ScReject ->
-        exists y, In y (pre ++ (ix, x) :: live_from (S ix) rest) /\ stuck items tail y (pre ++ (ix, x) :: live_from (S ix) rest)).
+        exists y, In y (pre ++ (ix, x) :: live_from (S ix) rest) /\ stuck items (match tail with TPos ps => TPos ps | _ => TNone end) y (pre ++ (ix, x) :: live_from (S ix) rest)).
       { intros Kx H'. destruct (is_help x); [discriminate|].
         destruct (find_owner items x 0) as [[k it]|] eqn:Fo.
         - destruct (find_owner_spec items x 0 k it Fo) as (_ & Hnth & Mk). rewrite Nat.sub_0_r in Hnth.
@@ -1267,15 +1274,15 @@ Proof.
           destruct (is_argument it) eqn:Ia.
           + (* an argument *)
             assert (Hrej : (forall b w, In (S ix, b) (live_from (S ix) rest) -> is_value b = Some w -> False) ->
-                    exists y, In y (pre ++ (ix, x) :: live_from (S ix) rest) /\ stuck items tail y (pre ++ (ix, x) :: live_from (S ix) rest)).
-            { intros Hnv. exists (ix, x). split; [exact Hx|]. apply (St_novalue items tail (ix, x) _ it Hit Ia Mk).
+                    exists y, In y (pre ++ (ix, x) :: live_from (S ix) rest) /\ stuck items (match tail with TPos ps => TPos ps | _ => TNone end) y (pre ++ (ix, x) :: live_from (S ix) rest)).
+            { intros Hnv. exists (ix, x). split; [exact Hx|]. apply (St_novalue items _ (ix, x) _ it Hit Ia Mk).
               intros b w G V. cbn [fst] in G. apply aget_in in G. apply in_app_or in G. destruct G as [G|[G|G]].
               - apply Hp in G. cbn in G. lia.
               - inversion G. lia.
               - eapply Hnv; eauto. }
             assert (Hacc : forall b w rest', rest = (b, false) :: rest' -> is_value b = Some w ->
-                    scan items [] tail rest' = ScReject ->
-                    exists y, In y (pre ++ (ix, x) :: live_from (S ix) rest) /\ stuck items tail y (pre ++ (ix, x) :: live_from (S ix) rest)).
+                    scan items anc tail rest' = ScReject ->
+                    exists y, In y (pre ++ (ix, x) :: live_from (S ix) rest) /\ stuck items (match tail with TPos ps => TPos ps | _ => TNone end) y (pre ++ (ix, x) :: live_from (S ix) rest)).
             { intros b w rest' -> Vb Hr. cbn [live_from app].
               destruct (IH rest' ltac:(cbn in Hn; lia) (S (S ix)) (pre ++ [(ix, x); (S ix, b)]) Hr) as (y & Hy & Sy).
               - intros p Hin. apply in_app_or in Hin. destruct Hin as [Hin|[<-|[<-|[]]]]; [apply Hp in Hin; lia|cbn; lia|cbn; lia].
@@ -1295,7 +1302,8 @@ Proof.
             destruct (prev_step ix pre x Hp (flag_key_argsafe x k it Fo Ia)) as [Hp' Pk'].
             destruct (IH rest ltac:(lia) (S ix) (pre ++ [(ix, x)]) H' Hp' Pk') as (y & Hy & Sy).
             rewrite <- app_assoc in Hy, Sy. cbn [app] in Hy, Sy. eauto.
-        - exists (ix, x). split; [exact Hx|]. apply St_unowned; [exact Kx|]. intros it Hit. eapply find_owner_none; eauto. }
+        - destruct (find_owner anc x 0); [discriminate|].
+          exists (ix, x). split; [exact Hx|]. apply St_unowned; [exact Kx|]. intros it Hit. eapply find_owner_none; eauto. }
       destruct x as [c adj os|nm adj os|w|w|w].
       * apply Hkey; [reflexivity|exact H].
       * apply Hkey; [reflexivity|exact H].
@@ -1311,7 +1319,9 @@ Proof.
            destruct (prev_step ix pre (Word w) Hp (not_key_argsafe (Word w) eq_refl)) as [Hp' Pk'].
            destruct (IH rest ltac:(lia) (S ix) (pre ++ [(ix, Word w)]) H Hp' Pk') as (y & Hy & Sy).
            rewrite <- app_assoc in Hy, Sy. cbn [app] in Hy, Sy. eauto.
-        -- exfalso. eapply Ht. reflexivity.
+        -- destruct (find_cmd cs w); [discriminate|].
+           exists (ix, Word w). split; [exact Hx|]. apply St_stray; [reflexivity| |left; reflexivity].
+           apply invB_head; auto. intros p. apply suf_above.
       * (* PosWord *)
         destruct tail as [|ps|cs] eqn:Et.
         -- exists (ix, PosWord w). split; [exact Hx|]. eapply St_posword; reflexivity.
@@ -1319,7 +1329,7 @@ Proof.
            destruct (prev_step ix pre (PosWord w) Hp (not_key_argsafe (PosWord w) eq_refl)) as [Hp' Pk'].
            destruct (IH rest ltac:(lia) (S ix) (pre ++ [(ix, PosWord w)]) H Hp' Pk') as (y & Hy & Sy).
            rewrite <- app_assoc in Hy, Sy. cbn [app] in Hy, Sy. eauto.
-        -- exfalso. eapply Ht. reflexivity.
+        -- exists (ix, PosWord w). split; [exact Hx|]. eapply St_posword; reflexivity.
 Qed.
 End ScanRej.
 
@@ -1368,10 +1378,12 @@ Proof.
   pose proof (ok_abstract env _ items tail (mark_tokens t) 0 s0 s1 v Hok S0 Ee Hfi) as Ha.
   destruct (compile_flat items tail Hok) as [Ec _]. rewrite Ec in Ha. cbn [aeval] in Ha. rewrite aevals_plist in Ha.
   assert (Hnc : forall cs, tail <> TCmds cs) by (intros cs ->; contradiction).
-  destruct (scan_reject_stuck items tail Hdis Hnc _ (mark_tokens t) (le_n _) 0 [] Sc) as (x & Hx & St).
+  destruct (scan_reject_stuck items [] tail Hdis _ (mark_tokens t) (le_n _) 0 [] Sc) as (x & Hx & St).
   - intros p [].
   - intros j b E. discriminate.
   - cbn [app] in Hx, St.
+    assert (Ept : ptail tail = tail) by (unfold ptail; destruct tail; [reflexivity|reflexivity|exfalso; eapply Hnc; reflexivity]).
+    rewrite Ept in St.
     pose proof (stuck_survives items Hdis (S (S (length (t_items t)))) tail x _ [] None Hnc (live_from_uniq _ 0) Hx St) as Hin.
     rewrite Ha in Hin. exact Hin.
 Qed.
